@@ -177,7 +177,17 @@ def impl_answer(g, query, argmap=None):
             warnings.simplefilter('ignore')
             if k == 'q':
                 f = getattr(g, 'get_' + query[1])
-                return {'ok': vals(f(A(query[2]), query[3]))}
+                # consumed element by element: a call that ends in an exception must not have handed out anything before it
+                # ("never silently answered" - a caller that takes the first element, or tests membership, never sees the exception)
+                handed = []
+                try:
+                    for t in f(A(query[2]), query[3]):
+                        handed.append(t)
+                except Exception as e:  # noqa
+                    if handed:
+                        return {'err': canon_err(e), 'exc': type(e).__name__, 'handed_out_before_raising': [getattr(t, 'value', repr(t)) for t in handed[:5]]}
+                    raise
+                return {'ok': sorted(t.value for t in handed)}
             if k == 'leaf':
                 return {'ok': as_bool(g.is_leaf(A(query[1])))}
             if k == 'pred':
@@ -272,7 +282,7 @@ def answers_equal(impl, model):
     if 'na' in impl or 'na' in model:
         return ('na' in impl) == ('na' in model)
     if 'err' in impl or 'err' in model:
-        return impl.get('err') == model.get('err')
+        return impl.get('err') == model.get('err') and not impl.get('handed_out_before_raising')
     return impl['ok'] == model['ok']
 
 
